@@ -41,7 +41,7 @@ verus! {
 
 // ---------------------------------------------------------------- struct-level #[ghosts(..)] entries (C01)
 //@fn expand.rs render_ghost_line
-//@props C01,C03,C16,C17
+//@props C01,C03,C07,C16,C17
 //@spec
     requires
         !k_is_from(ctx.kind), // #ghosts-only-when-converting-into [C16]
@@ -61,6 +61,7 @@ verus! {
             } else {
                 val + p(",")
             }
+        // (into, post-init and into_existing write the same value to the same member path: C07)
         }), // #declared-default-to-the-named-member
 //@end
 
